@@ -69,6 +69,21 @@ def roundtrips(spec):
     before_by = {k: fn() for k, fn in bystanders.items()}
     before_ex = {k: repr(e) for k, e in exprs.items()}
     res = []
+    # equal forms have equal hash and signature (metadata compared as mappings: key order must not matter at any depth)
+    mdA = {"quadrature_degree": 3, "opts": {"x": 1, "y": 2, "z": {"p": 1, "q": 2}}, "rule": "default"}
+    mdB = {"rule": "default", "opts": {"z": {"q": 2, "p": 1}, "y": 2, "x": 1}, "quadrature_degree": 3}
+    for tag, (m1, m2) in {"nested_metadata_order": (mdA, mdB), "flat_metadata_order": ({"a": 1, "b": 2}, {"b": 2, "a": 1})}.items():
+        F1, F2 = f * g * v * dx(metadata=m1), f * g * v * dx(metadata=m2)
+        try:
+            if F1.equals(F2) and not (hash(F1) == hash(F2) and F1.signature() == F2.signature()):
+                res.append(outcome(f"forms/{tag}", "violated", detail="equal forms (equal integrands, equal metadata mappings) have different "
+                                   "hash or signature", sample=f"metadata {m1} vs {m2}", witness={"metadata": [repr(m1), repr(m2)]}))
+            elif not F1.equals(F2):
+                res.append(outcome(f"forms/{tag}", "rejected", detail="the two forms are not == (nothing to check)"))
+            else:
+                res.append(outcome(f"forms/{tag}", "proved", stage="concrete", sample=f"metadata {m1} vs {m2}"))
+        except Exception as ex:  # noqa: BLE001
+            res.append(outcome(f"forms/{tag}", "inconclusive", detail=f"{type(ex).__name__}: {str(ex)[:150]}"))
     for k, e in exprs.items():
         name = f"roundtrip/{k}"
         try:
